@@ -528,8 +528,8 @@ def check(res, tier, seed):
         for i, (k, v, e) in f.ret.items():
             dist["ret:" + (e[:14] if e else "nil")] += 1
     res.coverage.update(
-        evaluations=len(recs), distinct_nontrivial=len(sigs),
-        rule="each case = (call specs, schedule of thread releases and environment actions) run on one real registry endpoint against a scripted peer, "
+        evaluations=sum(fam.values()), distinct_nontrivial=len(sigs),
+        rule="window-level cases (counted in distinct_nontrivial; the black-box scenario families listed under 'families' are counted in evaluations only): each case = (call specs, schedule of thread releases and environment actions) run on one real registry endpoint against a scripted peer, "
              "every panrpc goroutine parked at the verifhook labels; generated from the seed (mostly valid workloads, fault rate 0/10/35%), plus corpus; "
              "distinct = distinct sequence of (choice kind, set of thread statuses); non-trivial = >= 8 steps and (>= 2 calls or a fault/cancel or >= 2 responses)",
         samples=[dict(calls=r["calls"], choices=choices_of(r)[:40]) for r in (recs[:1] + recs[-1:])],
